@@ -146,7 +146,7 @@ def rand_net(rng: random.Random, *, n_in=None, n_g=None, shape=None, types=None,
     for _ in range(n_out):
         if outs and allow_repeat_outputs and rng.random() < 0.1:
             outs.append(rng.choice(outs))
-        elif allow_input_outputs and rng.random() < 0.1:
+        elif allow_input_outputs and gates and rng.random() < 0.1:
             outs.append(rng.choice(list(gates)))
         elif cand:
             # bias to late gates so that logic is live
